@@ -187,6 +187,12 @@ def noSupprRun (r : Result) : Bool :=
     | .edit _ al bl rs => noSupprPair al bl rs
     | _ => true
 
+/-- No pair of access lists the engine may compare has a plan with a suppressed move (decidable; the
+class in which the first run converges EXACTLY). -/
+def noSupprB (a b : Config) (sc : Scripts) : Bool :=
+  (cmpPairs (alignVRFs a b {}).2 b).all fun p =>
+    noSupprPair ((alignVRFs a b {}).2.lines p.1) (b.lines p.2) (lookupD sc.acl p)
+
 /-- The lists are equal line by line (text, text without `log`, action). -/
 def linesEqB (al bl : List ALine) : Bool :=
   (al.map fun l => (l.text, l.nolog, l.act)) == (bl.map fun l => (l.text, l.nolog, l.act))
